@@ -397,7 +397,9 @@ func (fv *FnV) doInstr(st *State, ins ssa.Instruction) error {
 			}
 		}
 		fv.notePublished(ins)
+		fv.curWriteTarget = ins.Map
 		fv.mapStore(st, mt, m, fv.term(fv.val(ins.Key)), fv.term(fv.val(ins.Value)), ins.Pos())
+		fv.curWriteTarget = nil
 	case *ssa.Range:
 		fv.vals[ins] = &SV{v: fv.val(ins.X).v, typ: ins.X.Type()}
 	case *ssa.Next:
@@ -824,6 +826,10 @@ func (fv *FnV) mapGet(st *State, mt *types.Map, m, k string) string {
 
 func (fv *FnV) mapStore(st *State, mt *types.Map, m, k, v string, pos token.Pos) {
 	dk, vk := fv.g.compMapDom(mt), fv.g.compMapVal(mt)
+	if fv.g.sortOf(mt.Key()) == sStr {
+		fv.curWriteKey = k
+	}
+	defer func() { fv.curWriteKey = "" }()
 	fv.frameWrite(st, vk, m, pos)
 	d, vv := fv.heapGet(st, dk), fv.heapGet(st, vk)
 	fv.heapSet(st, dk, sto(d, m, sto(sel(d, m), k, "true")))
@@ -832,6 +838,10 @@ func (fv *FnV) mapStore(st *State, mt *types.Map, m, k, v string, pos token.Pos)
 
 func (fv *FnV) mapDelete(st *State, mt *types.Map, m, k string, pos token.Pos) {
 	dk := fv.g.compMapDom(mt)
+	if fv.g.sortOf(mt.Key()) == sStr {
+		fv.curWriteKey = k
+	}
+	defer func() { fv.curWriteKey = "" }()
 	fv.frameWrite(st, dk, m, pos)
 	d := fv.heapGet(st, dk)
 	// delete on a nil map is a no-op
